@@ -215,6 +215,8 @@ func ReadGFF(f io.Reader) (GFF, error) {
 	var err error
 
 	s := bufio.NewScanner(f)
+	// as the fasta readers: lines of up to 1 MiB (the default token of 64 KiB made the scanner stop, silently)
+	s.Buffer(make([]byte, 0), 1024*1024)
 	for s.Scan() {
 		line := s.Text()
 		if inFasta {
@@ -245,6 +247,11 @@ func ReadGFF(f io.Reader) (GFF, error) {
 			}
 			features = append(features, feature)
 		}
+	}
+
+	// a line that is too long, or a read error: the annotation is incomplete
+	if err := s.Err(); err != nil {
+		return gff, err
 	}
 
 	gff.Features = features
